@@ -4,7 +4,7 @@ from props import common
 
 LEVEL = 'proof'
 MODULES = ['TlsModel.Props.C13']
-FAMS = ['dh', 'ec_params', 'ecdh', 'dsig', 'dsig_old', 'content_sig', 'named_groups']
+FAMS = ['dh', 'ec_params', 'ecdh', 'dsig', 'dsig_old', 'content_sig', 'content_sig_dual', 'named_groups']
 
 
 def run(ctx):
@@ -32,15 +32,19 @@ def run(ctx):
     common.run_exact(ctx, gc)
     # all truncations of a sample of accepted inputs: never a value
     trunc = []
-    for c in exact[:(2000 if ctx.thorough else 200)]:
-        if c.value is not None and c.rem == 0 and c.op[0] != 'named_groups':
+    elig = [c for c in exact if c.value is not None and c.rem == 0 and c.op[0] != 'named_groups']
+    per_fam = {}
+    for c in elig:          # the same number of inputs from every family (the first version took the first 200: all of one family)
+        per_fam.setdefault(c.fam, []).append(c)
+    for c in [c for cs in per_fam.values() for c in cs[:(300 if ctx.thorough else 40)]]:
+        if True:
             for p in range(len(c.buf)) if len(c.buf) <= 64 else sorted({rng.randrange(len(c.buf)) for _ in range(8)}):
                 trunc.append(enc.Case(c.fam + '/alltrunc', c.op, c.buf[:p], [], None))
-    common.run_differential(ctx, trunc, common.proj_value,
+    common.run_differential(ctx, trunc, common.proj_trunc,
                             classify=lambda c, r: 'a strict prefix of the structure must not yield a value' if r.startswith('ok ') else None)
     common.lean_failure_violation(ctx, ok)
     return ctx.finish(LEVEL,
-        rule='ServerDHParams / ECParameters (named and explicit-prime) / ServerECDHParams / DigitallySigned (both forms) / parse_content_and_signature (both flag values) / named groups: independent-encoder values with boundary field lengths (exact), suffixes, corruptions (differential), all 256 curve types (class: rejected with an error unless 1 or 3), named groups swept, strict prefixes (class: never a value); distinct = (family, outcome shape)',
+        rule='ServerDHParams / ECParameters (named and explicit-prime) / ServerECDHParams / DigitallySigned (both forms) / parse_content_and_signature (both flag values) / named groups: independent-encoder values with boundary field lengths (exact), suffixes, corruptions (differential), all 256 curve types (class: rejected with an error unless 1 or 3), named groups swept, strict prefixes (class: never a value; model and implementation must agree on asking for more input vs rejecting - the quantifier of the property names truncations); signatures that are well-formed under both readings (the flag alone decides); distinct = (family, outcome shape)',
         checker_cmd='cd /verif/lean && lake build TlsModel.Props.C13', assumptions=[])
 
 
